@@ -116,8 +116,10 @@ class Check:
         }
         if not self.cov["samples"]:
             self.cov["samples"] = ["(no sample recorded)"]
-        os.makedirs(os.path.join(VERIF, "evidence"), exist_ok=True)
-        with open(os.path.join(VERIF, "evidence", f"{self.pid}.json"), "w") as f:
+        # /verif/evidence describes runs against /repo itself; runs against another tree (seeded changes: REPO_ROOT set) go to out/
+        evdir = os.path.join(VERIF, "evidence") if os.environ.get("REPO_ROOT", "/repo") == "/repo" else os.path.join(VERIF, "out", "evidence_other_tree")
+        os.makedirs(evdir, exist_ok=True)
+        with open(os.path.join(evdir, f"{self.pid}.json"), "w") as f:
             json.dump(ev, f, indent=1, default=str)
         for h in self.known_hit:
             print(f"KNOWN-FINDING: property={self.pid} {h['key']} :: {h['what']}")
